@@ -8,7 +8,8 @@ All statements are over all inputs.  Sections: `Amount` (cw20-ics20 `amount.rs`)
 the message builders, the query wrappers.  `example`s show the hypotheses are satisfiable and pin the surprising
 cases on concrete values.
 -/
-namespace CwPlus.Pkg
+namespace CwPlus.Props.Pkg
+open CwPlus.Pkg
 open CwPlus CwPlus.Json NativeBalance
 
 /-! ## `Amount` -/
@@ -582,4 +583,4 @@ example : (cw20Request "token" .tokenInfo).msg = lit "{\"token_info\":{}}" := by
 example : (cw4Request "group" .hooks).msg = lit "{\"hooks\":{}}" := by decide
 example : cw20IsMintable .null = true ∧ cw20Minter .null = .ok none := by decide
 
-end CwPlus.Pkg
+end CwPlus.Props.Pkg
